@@ -12,6 +12,7 @@ for id in $ids; do
   VERIF_REPO="$S" VERIF_OUT="$S/.verif-out" timeout 900 ./bin/gocv check $prop quick > "$S/.out" 2>&1; rc=$?
   n=$(grep -c '^VIOLATION' "$S/.out")
   first=$(grep -m1 '^VIOLATION' "$S/.out" | sed 's/.*obligation=//' | cut -c1-120)
-  echo "$id $prop:rc=$rc,viol=$n[$first]"
+  ni=$(grep '^VIOLATION' "$S/.out" | grep -vc 'no-failing-input-found')
+  echo "$id $prop:rc=$rc,viol=$n,with-input=$ni[$first]"
   find "${S:?}" -mindepth 1 -delete; rmdir "$S"
 done
